@@ -63,6 +63,8 @@ def main(tier):
                       'DigitalRFReader.__init__ / channel discovery', 'remote (http/file) access modes')
     T = 90 if tier == 'quick' else 600
     res = chx.run_module('reader', per_condition_timeout=T)
-    chx.report(rep, res, TITLES, replays={'_vector_raw': lambda kw: REPLAY_VECTOR % (kw,)}, sigs={'_vector_raw': 'C08.read_vector_raw.length1'})
+    from checks import C11
+    chx.report(rep, res, TITLES, replays={'_vector_raw': lambda kw: REPLAY_VECTOR % (kw,), '_bounds_merge': lambda kw: C11.REPLAY_BOUNDS % (kw,)},
+               sigs={'_vector_raw': 'C08.read_vector_raw.length1'})
     readerside.c08_part(rep, st, tier)
     return rep.finish()
